@@ -217,7 +217,6 @@ package didstore
 //@   prop C10
 //@   nullable resolveMetadata
 //@   modifies nothing
-//@   loop 1 invariant true
 //@   ensures [deactivated-only-when-allowed] result && metadata.Deactivated ==> resolveMetadata != nil && resolveMetadata.AllowDeactivated
 //@   ensures [not-from-the-future] result && resolveMetadata != nil && resolveMetadata.ResolveTime != nil ==> !metadata.Updated.After(*resolveMetadata.ResolveTime) && !metadata.Created.After(*resolveMetadata.ResolveTime)
 
